@@ -173,6 +173,10 @@ def rule_pad_structure(ctx, crate, rule="R-PAD-STRUCTURE"):
         if sl.has_field("str", PSD) and not sl.calls:
             whole.append(c)
     ok = False
+    psd_fields = {f_["name"]: f_["ty"] for v_ in crate.adts.get(PSD, {}).get("variants", []) for f_ in v_["fields"]}
+    if psd_fields.get("truncate") != "bool":
+        ctx.lost(rule, cfg, "PaddedStringDisplay has no bool field named `truncate` any more (fields: %s)" % sorted(psd_fields))
+        return
     for c in whole:
         for sb, t in b.switches():
             sl = b.slice(t["op"], at=sb)
@@ -199,6 +203,10 @@ def rule_wide_msg(ctx, crate, rule="R-WIDE-MSG"):
     for (cb, i, j, s) in cons:
         rv = s["rv"]
         f = dict(zip(rv["fields"], rv["ops"]))
+        missing = [k for k in ("truncate", "width", "str", "align") if k not in f]
+        if missing:
+            ctx.lost(rule, cfg, "PaddedStringDisplay no longer has the field(s) %s this rule names" % missing)
+            continue
         ctx.check(is_const(f["truncate"], True), rule, "truncates", b.name, "%s:%d" % (b.file, s.get("line", 0)), "wide_msg always truncates",
                   "wide_msg does not truncate: a long message makes the line wider than the terminal", cfg)
         wsl = b.slice(f["width"], at=i)
@@ -234,9 +242,15 @@ def rule_placeholder_fields_forwarded(ctx, crate, rule="R-PLACEHOLDER-FIELDS-FOR
         for (cb, i, j, s) in K.constructions(crate, PSD, bodies=[fs]):
             rv = s["rv"]
             f = dict(zip(rv["fields"], rv["ops"]))
+            # the format fields: those of the padded field that the placeholder declares under the same name
+            tp_fields = {fl[1] for cb2, i2, j2, s2 in K.constructions(crate, "style::TemplatePart") for fl in [(None, n_) for n_ in s2["rv"].get("fields", [])]}
+            names = [k for k in f if k in tp_fields]
+            if len(names) < 3:
+                ctx.lost(rule, cfg, "PaddedStringDisplay and TemplatePart::Placeholder share %d field names (%s): cannot pair width/alignment/truncation" % (len(names), names))
+                continue
             ok = all(fs.slice(f[k], at=i).has_field(k, "style::TemplatePart")
                      and not fs.slice(f[k], at=i, through_calls=False).calls_matching(r"core::num::.*", r"std::cmp::.*", r"std::ops::.*", r"std::option::Option::<T>::(map|unwrap_or.*|and_then|filter)")
-                     and not [a for a in fs.slice(f[k], at=i, through_calls=False).atoms if a[0] in ("binop", "unop")] for k in ("width", "align", "truncate"))
+                     and not [a for a in fs.slice(f[k], at=i, through_calls=False).atoms if a[0] in ("binop", "unop")] for k in names)
             ctx.check(ok, rule, "placeholder-fields-forwarded", fs.name, "%s:%d" % (fs.file, s.get("line", 0)),
                       "width, alignment and truncate flag of the placeholder are the ones the template specified",
                       "the padded field does not use the placeholder's own width/alignment/truncate", cfg)
